@@ -29,6 +29,7 @@ fn main() {
         ("record", "session") => session::record(&args),
         ("replay", "vrange") => session::replay_vrange(&args),
         ("record", "subs") => subs::record(&args),
+        ("replay", "subs") => subs::replay(&args),
         ("record", "syncer") => syncer::record(&args),
         ("record", "daser") => daser::record(&args),
         ("record", "pruner") => pruner::record(&args),
